@@ -41,7 +41,7 @@ fn examples() -> Vec<(String, Vec<u8>)> {
 /// size of the enumerated truncation space: every cut point of every example, with and without
 /// a newline re-appended
 pub fn truncation_space() -> u64 {
-    examples().iter().map(|(_, b)| (b.len() as u64 + 1) * 2).sum()
+    SCALING_FAMILIES.len() as u64 + examples().iter().map(|(_, b)| (b.len() as u64 + 1) * 2).sum::<u64>()
 }
 
 /// size of the enumerated single-byte replacement space (thorough tier)
@@ -89,7 +89,128 @@ fn storage_case(seed: u64, run: u64, source: Vec<u8>, faults: Vec<String>, inter
     c
 }
 
+/// CPU time of the calling thread in microseconds (load on the machine does not count)
+pub fn thread_cpu_us() -> u64 {
+    let mut ts = libc::timespec { tv_sec: 0, tv_nsec: 0 };
+    // SAFETY: plain libc call filling a local struct
+    let r = unsafe { libc::clock_gettime(libc::CLOCK_THREAD_CPUTIME_ID, &mut ts) };
+    if r != 0 {
+        return 0;
+    }
+    ts.tv_sec as u64 * 1_000_000 + ts.tv_nsec as u64 / 1000
+}
+
+pub const SCALING_FAMILIES: [&str; 9] = [
+    "forward_jumps", "backward_jumps", "labels", "macro_uses", "data_bytes", "procedures", "prints", "comment_lines", "undefined_then_error",
+];
+
+/// a program of "size n" of one family; cost must grow in proportion to n
+fn scaling_program(family: &str, n: usize) -> String {
+    let mut t = String::with_capacity(n * 24);
+    match family {
+        "forward_jumps" => {
+            t.push_str("start:\n");
+            for i in 0..n {
+                t.push_str(&format!("jmp F_{}\n", i));
+            }
+            for i in 0..n {
+                t.push_str(&format!("F_{}:\n", i));
+            }
+            t.push_str("print reg\n");
+        }
+        "backward_jumps" => {
+            for i in 0..n {
+                t.push_str(&format!("B_{}:\n", i));
+            }
+            t.push_str("jmp start\n");
+            for i in 0..n {
+                t.push_str(&format!("je B_{}\n", i));
+            }
+            t.push_str("start:\nprint reg\n");
+        }
+        "labels" => {
+            t.push_str("start:\n");
+            for i in 0..n {
+                t.push_str(&format!("L_{}: inc ax\n", i));
+            }
+        }
+        "macro_uses" => {
+            t.push_str("macro m(a) -> add bx, a <-\nstart:\n");
+            for i in 0..n {
+                t.push_str(&format!("m({})\n", i % 200));
+            }
+        }
+        "data_bytes" => {
+            for i in 0..n {
+                t.push_str(&format!("db {}\n", i % 256));
+            }
+            t.push_str("start:\nprint mem : 8\n");
+        }
+        "procedures" => {
+            for i in 0..n {
+                t.push_str(&format!("def p_{} {{ inc ax }}\n", i));
+            }
+            t.push_str("start:\ncall p_0\n");
+        }
+        "prints" => {
+            t.push_str("start:\n");
+            for _ in 0..n {
+                t.push_str("print flags\n");
+            }
+        }
+        "comment_lines" => {
+            t.push_str("start:\n");
+            for i in 0..n {
+                t.push_str(&format!("  ; comment number {} with a : and a , in it\n", i));
+            }
+            t.push_str("inc ax\n");
+        }
+        _ => {
+            // undefined_then_error
+            t.push_str("start:\n");
+            for i in 0..n {
+                t.push_str(&format!("jne U_{}\n", i));
+            }
+            t.push_str("mov ax,, 1\n");
+        }
+    }
+    t
+}
+
+fn scaling_case(seed: u64, run: u64, k: usize, thorough: bool) -> Case {
+    let family = SCALING_FAMILIES[k % SCALING_FAMILIES.len()];
+    // every macro use builds a parser of its own (milliseconds): keep that family small
+    let n = match (family, thorough) {
+        ("macro_uses", false) => 60,
+        ("macro_uses", true) => 250,
+        ("prints", false) => 300,
+        ("prints", true) => 350,
+        (_, false) => 6_000,
+        (_, true) => 25_000,
+    };
+    let big = scaling_program(family, 4 * n);
+    let small = scaling_program(family, n);
+    let mut scn = Scenario::new(big.as_bytes());
+    scn.fuel = 1500;
+    scn.storage_faults = vec![format!("size_family({},{})", family, 4 * n)];
+    let mut c = Case::new("C15", "scaling", seed, run, scn);
+    c.config = "size_scaling".to_owned();
+    c.faults = vec![format!("size_{}", family)];
+    let mut a = Scenario::new(small.as_bytes());
+    a.fuel = 1500;
+    a.storage_faults = vec![format!("size_family({},{})", family, n)];
+    c.alts.push(AltRun { role: "scale_small".to_owned(), scn: a, gen: None });
+    c
+}
+
 pub fn make_case(seed: u64, run: u64, thorough: bool, _stats: &mut Stats) -> Option<Case> {
+    // ---- enumerated part 0: the size families, once each (identical for all seeds)
+    if (run as usize) < SCALING_FAMILIES.len() {
+        return Some(scaling_case(seed, run, run as usize, thorough));
+    }
+    let run_orig = run;
+    let run = run - SCALING_FAMILIES.len() as u64;
+    let _ = run_orig;
     let ex = examples();
     // ---- enumerated part 1: truncation points (identical for all seeds)
     let mut i = run;
@@ -468,6 +589,46 @@ pub fn judge(case: &Case, ex: &Exec) -> Vec<Violation> {
             format!("C15:panic@{}{{direct:{}}}", key, parser),
             format!("the {} aborted on the string {:?} ({})", parser, t, key),
         ));
+    }
+    // time proportional to the input, relative form: four times the size, at most ten times the
+    // CPU time (and more than a second of it), measured three times
+    if case.kind == "scaling" && !ex.alt_cpu_us.is_empty() {
+        let family = case.faults.get(0).cloned().unwrap_or_default();
+        let ratio_bad = |big: u64, small: u64| big > 1_000_000 && big > 10 * small.max(1);
+        if ratio_bad(ex.cpu_us, ex.alt_cpu_us[0]) {
+            let mut all = true;
+            let mut last = (ex.cpu_us, ex.alt_cpu_us[0]);
+            for _ in 0..2 {
+                let t0 = thread_cpu_us();
+                let _ = crate::world::run_here(&case.scn, None);
+                let t1 = thread_cpu_us();
+                let _ = crate::world::run_here(&case.alts[0].scn, None);
+                let t2 = thread_cpu_us();
+                last = (t1 - t0, t2 - t1);
+                if !ratio_bad(last.0, last.1) {
+                    all = false;
+                    break;
+                }
+            }
+            if all {
+                v.push(Violation::new(
+                    format!("C15:superlinear{{{}}}", family),
+                    format!(
+                        "a program four times the size costs {} ms of CPU against {} ms: time is not proportional to the input ({})",
+                        last.0 / 1000, last.1 / 1000, case.scn.storage_faults.join(",")
+                    ),
+                ));
+            }
+        }
+        // the small one must be answered properly too
+        if let Some(a) = ex.alts.get(0) {
+            if let Some((msg, file, line)) = a.panic() {
+                v.push(Violation::new(
+                    format!("C15:panic@{}", panic_key(file, line)),
+                    format!("the emulator aborted on this source file: {} at {}:{}", msg, file, line),
+                ));
+            }
+        }
     }
     // time proportional to the input: generous budget, re-measured before it is reported
     let n = case.scn.source.0.len() as u64;
